@@ -98,6 +98,9 @@ var streamCache struct {
 func BuildStream(sp StreamSpec, required int64) *Stream {
 	st := buildStream(sp, required)
 	st.eofData = sp.EOFData
+	if L := int64(sp.DupLen); L > 0 && st.data != nil && sp.DupAt >= L && sp.DupAt+L <= int64(len(st.data)) {
+		copy(st.data[sp.DupAt:sp.DupAt+L], st.data[sp.DupAt-L:sp.DupAt])
+	}
 	return st
 }
 
